@@ -79,6 +79,9 @@ type PairRun struct {
 	resID   ecs.ResID
 	outcome string
 	dead    bool
+	// handleOrderFree: a batch removal over several entities has recycled IDs in table iteration order, which the
+	// property exempts ("up to iteration order"); from then on the two worlds need not issue identical handles
+	handleOrderFree bool
 	// kept dump
 	kept      *ecs.EntityDump
 	keptCopy  []byte
@@ -95,6 +98,9 @@ func (r *PairRun) Outcome() string { return r.outcome }
 // Key implements wx.Run.
 func (r *PairRun) Key(buf []byte) []byte {
 	buf = r.a.Key(buf)
+	if r.handleOrderFree {
+		buf = append(buf, "||free"...)
+	}
 	if r.kept != nil {
 		buf = append(buf, "||K"...)
 		buf = append(buf, r.keptCopy...)
@@ -205,6 +211,24 @@ func (r *PairRun) Apply(op wx.Op) wx.Result {
 	if ra.Prune {
 		return ra
 	}
+	if op.K == OpBatchRemoveEnt && !r.cfg.Load {
+		n := 0
+		for i := range r.a.m.Slots {
+			if i < len(r.b.m.Slots) && !r.a.m.Slots[i].Alive {
+				n++
+			}
+		}
+		if len(r.a.m.matchedBefore) > 1 {
+			r.handleOrderFree = true
+		}
+		_ = n
+	}
+	if r.handleOrderFree {
+		if len(r.a.m.Slots) != len(r.b.m.Slots) {
+			return r.fail("pair:slots:"+opNames[op.K], "the two worlds issued a different number of handles")
+		}
+		return wx.Result{}
+	}
 	// identical handles
 	sa, sb := r.a.m.Slots, r.b.m.Slots
 	if len(sa) != len(sb) {
@@ -289,6 +313,7 @@ func (r *PairRun) applyReset() wx.Result {
 		b.registerRaw(g.Spec, g.Target)
 	}
 	r.b = b
+	r.handleOrderFree = false
 	return wx.Result{}
 }
 
